@@ -16,6 +16,7 @@ import (
 	"sort"
 	"strconv"
 	"strings"
+	"sync/atomic"
 
 	"verif/harness/corpus"
 	"verif/harness/vh"
@@ -203,4 +204,23 @@ func CrashSig(res ChildResult) string {
 		}
 	}
 	return fmt.Sprintf("exit %d", res.ExitCode)
+}
+
+// Ticks are per-goroutine progress counters for a watchdog.  Each worker increments ONLY its own counter, so the
+// counters create no happens-before edge between workers (a shared atomic would, and would hide races from the
+// detector); the watchdog merely reads them.
+type Ticks struct {
+	c [64]struct {
+		n atomic.Int64
+		_ [56]byte
+	}
+}
+
+func (t *Ticks) Tick(worker int) { t.c[worker&63].n.Add(1) }
+func (t *Ticks) Sum() int64 {
+	var s int64
+	for i := range t.c {
+		s += t.c[i].n.Load()
+	}
+	return s
 }
